@@ -595,6 +595,16 @@ def aggregate(agg, r):
             agg['samples'].append({k: r[k]})
 
 
+def explains_nondeterminism(violations):
+    """A fingerprint that differs between interpreters is normally a defect
+    of the simulator (exit 2).  If the hash-seed oracle has itself shown that
+    the launch plan of the code under test depends on the interpreter's hash
+    seed, the difference is explained by that violation."""
+    return any(v['violation']['class'] ==
+               'launch_plan_depends_on_interpreter_hash_seed'
+               for v in violations)
+
+
 def signature(plan, v):
     d = v.get('detail') or {}
     sig = {'class': v['class'], 'mode': plan['mode']}
